@@ -115,7 +115,8 @@ Definition P_after (o1 : out) (hs : list gs) (orelse : gs) (n : nat) (o : out) :
        | B => rb r || (ra r && rb h) || (rn r && rb oe) = true
        end.
 
-Ltac btrue := repeat (rewrite ?orb_true_iff, ?andb_true_iff in *).
+Ltac btrue := repeat (rewrite ?orb_true_iff, ?andb_true_iff).
+Ltac bhyp H := repeat (rewrite ?orb_true_iff, ?andb_true_iff in H).
 
 Lemma ana_sound_mut :
   (forall s n o, run s n o -> P_run s n o)
@@ -150,10 +151,10 @@ Proof.
     destruct (H2 Hpre) as [Yh Oh]. destruct H4 as [Yf Of]. subst o. split.
     + intro Hn. btrue.
       destruct n1; [|left; left; left; apply Yb; lia].
-      destruct n2; [|left; assert (E : S n2 <> 0) by lia; specialize (Yh E); btrue; tauto].
+      destruct n2; [|left; assert (E : S n2 <> 0) by lia; specialize (Yh E); bhyp Yh; tauto].
       right. apply Yf. lia.
     + destruct o3; [| btrue; tauto | btrue; tauto].
-      destruct o2; btrue; tauto.
+      destruct o2; bhyp Oh; btrue; tauto.
   - (* Af_N *) destruct H0 as [Yo Oo]. cbn in H1. split.
     + intro Hn. btrue. right. split; [exact H1 | apply Yo; exact Hn].
     + destruct o; btrue; tauto.
